@@ -43,6 +43,7 @@ CFG = {
     "canon": _canon,
     "lean_modules": ["SuccinctlyVerif.Props.C19"],
     "lean_files": ["SuccinctlyVerif/Props/C19.lean", "SuccinctlyVerif/Model/JsonTotal.lean", "SuccinctlyVerif/Proof/JsonTotal.lean"],
+    "required_theorems": ["SV.Props.C19.json_access_total", "SV.Props.C19.raw_bytes_v0_refuted", "SV.Props.C19.raw_bytes_v0_total_partial", "SV.Props.C19.decode_escapes_total", "SV.Props.C19.parse_hex4_total", "SV.Props.C19.json_access_total_text_range_partial", "SV.Props.C19.dsv_current_field_total_partial"],
     "generated": [],
     "nontrivial": _nontrivial,
     "rule": "request = one input (text + start offset for accessor requests; one byte string / program for monitored requests); "
